@@ -160,12 +160,28 @@ def parseUDec (s : Str) : Option (Nat × Int) :=
     if ip.isEmpty then none
     else (parseExp r1).map (fun e => (natOfDigits ip, e))
 
-/-- strconv.ParseFloat(s, 64) on the decimal grammar: value = mantissa · 10^exp (exact) -/
-def parseDec (s : Str) : Option (Int × Int) :=
+def parseDecRaw (s : Str) : Option (Int × Int) :=
   match s with
   | '+' :: r => (parseUDec r).map (fun (m, e) => (Int.ofNat m, e))
   | '-' :: r => (parseUDec r).map (fun (m, e) => (- Int.ofNat m, e))
   | r => (parseUDec r).map (fun (m, e) => (Int.ofNat m, e))
+
+/-- |m|·10^e ≥ 2^1024 − 2^970: the text rounds to ±Inf, strconv.ParseFloat reports ErrRange -/
+def decOverflows (m e : Int) : Bool :=
+  let thr : Nat := 2 ^ 1024 - 2 ^ 970
+  if m = 0 then false
+  else if e < 200 && m.natAbs < 10 ^ 100 then false      -- far below the threshold (keeps small cases cheap to evaluate)
+  else if e > 400 then true
+  else if e < -400 then false
+  else match e with
+    | .ofNat k => decide (thr ≤ m.natAbs * 10 ^ k)
+    | .negSucc k => decide (thr * 10 ^ (k + 1) ≤ m.natAbs)
+
+/-- strconv.ParseFloat(s, 64) on the decimal grammar: value = mantissa · 10^exp (exact); out-of-range → error -/
+def parseDec (s : Str) : Option (Int × Int) :=
+  match parseDecRaw s with
+  | none => none
+  | some (m, e) => if decOverflows m e then none else some (m, e)
 
 /-- strconv.ParseBool -/
 def parseBoolText (s : Str) : Option Bool :=
@@ -521,9 +537,12 @@ resolves in the result -/
 def queryObjFound {β γ : Type} (sprops : List (Str × β)) (props : List (Str × Str)) (val : List (Str × γ)) : Bool :=
   !sprops.isEmpty && props.any (fun kv => hasKey kv.1 sprops || hasKey kv.1 val)
 
-def queryObj (prim : PT → Str → PR) (shadow : Bool) (name : Str) (st : Sty) (ex : Bool) (r : Req)
+def queryObj (prim : PT → Str → PR) (shadow : Bool) (absentAware : Bool) (name : Str) (st : Sty) (ex : Bool) (r : Req)
     (sprops : List (Str × PS)) (addl : Option PS) : Out :=
   if st ≠ .form then badMethodObj else
+  -- specification side only (`absentAware`): an exploded object none of whose declared properties occurs in the
+  -- query is absent; the code builds the empty object from the other query parameters instead
+  if absentAware && ex && addl.isNone && !(firstVals r.query).any (fun kv => hasKey kv.1 sprops) then absentObj else
   let propsO : Option (Option (List (Str × Str))) :=   -- none = error, some none = no props
     if ex then some (some (firstVals r.query))
     else match qLookup name r.query with
@@ -744,9 +763,10 @@ structure Flavour where
   prim : PT → Str → PR
   cookieExplodeBad : Bool
   addlShadow : Bool
+  absentAware : Bool
 
-def impl : Flavour := ⟨parsePrim, true, true⟩
-def spec : Flavour := ⟨specPrim, false, false⟩
+def impl : Flavour := ⟨parsePrim, true, true, false⟩
+def spec : Flavour := ⟨specPrim, false, false, true⟩
 
 def decodeLeaf (fl : Flavour) (c : Cell) (name : Str) (r : Req) : Leaf → Out
   | .prim ps => match c.loc with
@@ -762,12 +782,12 @@ def decodeLeaf (fl : Flavour) (c : Cell) (name : Str) (r : Req) : Leaf → Out
   | .obj sprops _ addl => match c.loc with
     | .path => pathObj fl.prim fl.addlShadow name c.style c.explode r sprops addl
     | .query => if c.style = .deepObject then queryDeepFlat fl.prim name r sprops
-                else queryObj fl.prim fl.addlShadow name c.style c.explode r sprops addl
+                else queryObj fl.prim fl.addlShadow fl.absentAware name c.style c.explode r sprops addl
     | .header => headerObj fl.prim fl.addlShadow c.style c.explode r sprops addl
     | .cookie => cookieObj fl.prim fl.addlShadow fl.cookieExplodeBad c.style c.explode r sprops addl
   | .deep sprops _ => match c.loc, c.style with
     | .query, .deepObject => queryDeep fl.prim name r sprops
-    | .query, .form => queryObj fl.prim fl.addlShadow name c.style c.explode r [] none   -- never generated
+    | .query, .form => queryObj fl.prim fl.addlShadow fl.absentAware name c.style c.explode r [] none   -- never generated
     | .query, _ => badMethodObj
     | .path, _ => pathObj fl.prim fl.addlShadow name c.style c.explode r [] none
     | .header, _ => headerObj fl.prim fl.addlShadow c.style c.explode r [] none
@@ -1091,6 +1111,16 @@ def leafAddlShadow : Leaf → Bool
   | _ => false
 
 def AddlShadow (p : Param) : Bool := (schLeaves p.schema).any leafAddlShadow
+
+/-- query, form, explode=true, an object schema without additionalProperties schema, other query parameters
+present but none of the object's declared properties: the parameter is absent, the code decodes `{}` -/
+def leafQueryObjAbsent (r : Req) : Leaf → Bool
+  | .obj sprops _ none => !(firstVals r.query).any (fun kv => hasKey kv.1 sprops)
+  | _ => false
+
+def QueryObjAbsent (p : Param) (r : Req) : Bool :=
+  p.cell.loc = .query && p.cell.style = .form && p.cell.explode && !r.query.isEmpty &&
+  (schLeaves p.schema).any (leafQueryObjAbsent r)
 
 /-- integer text that is not plain decimal (sign, then a leading `0` followed by more characters): the code
 reads it with base 0 -/
